@@ -39,8 +39,18 @@ def run_one(sid, in_repo):
         r = sh('git -C /repo worktree add -q --detach %s HEAD' % target)
         r = sh('git -C %s apply %s' % (target, patch))
         if r.returncode:
-            sh('git -C /repo worktree remove --force %s' % target)
-            return {'id': sid, 'property': prop, 'error': 'patch does not apply: ' + r.stdout[-300:]}
+            # /repo has gained fix: commits since the change was produced: carry the patch over with fuzz
+            # (same edit, shifted / slightly different context) and keep the carried-over patch
+            r2 = sh('cd %s && patch -p1 -F3 --no-backup-if-mismatch < %s' % (target, patch))
+            if r2.returncode or sh('git -C %s status --porcelain' % target).stdout.strip() == '':
+                sh('git -C /repo worktree remove --force %s' % target)
+                return {'id': sid, 'property': prop, 'error': 'patch does not apply: ' + r.stdout[-300:]}
+            sh('find %s -name "*.orig" -o -name "*.rej" | xargs rm -f' % target)
+            newp = sh('git -C %s diff' % target).stdout
+            open(patch, 'w').write(newp)
+            meta['rebased'] = (meta.get('rebased', '') + ' | ' if meta.get('rebased') else '') + \
+                'carried over with patch -F3 onto /repo %s' % sh('git -C /repo rev-parse --short HEAD').stdout.strip()
+            json.dump(meta, open(os.path.join(d, 'meta.json'), 'w'), indent=1)
         env['VERIF_REPO'] = target
     t0 = time.time()
     try:
